@@ -480,7 +480,7 @@ func findChallengeConsume(c *km.Ctx, handler *ssa.Function) *challengeConsume {
 		return cc
 	}
 	for _, ci := range km.CallsIn(handler) {
-		if g := km.StaticCallee(ci.Common()); g != nil && g.Blocks != nil && g.Pkg != nil && g.Pkg.Pkg.Path() == KMD {
+		if g := km.StaticCallee(ci.Common()); g != nil && g.Blocks != nil && g.Pkg != nil && pkgIsKMD(g.Pkg) {
 			if cc := scan(g); cc != nil {
 				cc.call = ci
 				return cc
@@ -794,7 +794,7 @@ func checkPushRecords(c *km.Ctx) {
 	r := c.R
 	n := 0
 	for _, fn := range c.P.AllFuncs {
-		if fn.Pkg == nil || fn.Pkg.Pkg.Path() != KMD {
+		if fn.Pkg == nil || !pkgIsKMD(fn.Pkg) {
 			continue
 		}
 		km.Instrs(fn, func(in ssa.Instruction) {
